@@ -129,3 +129,216 @@ def _read_metadata_closed(vc):
     rd = mk_reader(vc, None)
     out = vc.call_method(rd, "read_metadata", False)
     vc.ensure("reader-without-streams-raises", out.raised(ValueError))
+
+
+# =====================================================================================================================
+# the walk for ANY number of segments: while-loop invariant; _segments is a list of symbolic length (GrowList)
+# =====================================================================================================================
+
+from pyvc.interp import LoopSpec
+from pyvc.zarr import ZArr
+from pyvc.sym import SymBool
+
+POS = z3.Function("SEGPOS", I, I)        # data-file position of segment k        (POS(0) = 0)
+QPOS = z3.Function("IDXPOS", I, I)       # index-stream position of segment k     (QPOS(0) = 0)
+VALS = z3.Function("VALS_P", I, I)       # values of the channel P that segment k adds (>= 0)
+CUMV = z3.Function("CUMV_P", I, I)       # CUMV(k) = VALS(0) + ... + VALS(k), CUMV(-1) = 0
+
+
+def walk_facts(st, k):
+    """defining equations of the position functions and the running value count at segment k (instantiations)"""
+    k = zi(k)
+    st.add_fact(z3.And(RAW(k) >= 0, NEXT(k) >= RAW(k),
+                       POS(k + 1) == POS(k) + 28 + NEXT(k),
+                       QPOS(k + 1) == QPOS(k) + 28 + RAW(k),
+                       VALS(k) >= 0, CUMV(k) == CUMV(k - 1) + VALS(k)))
+
+
+class GrowList(object):
+    """self._segments during the loop: `n` segments, element j is the segment with ghost index idx.sel(j)"""
+    _absent = ()
+
+    def __init__(self, n, idx):
+        self.n = n
+        self.idx = idx
+
+    def sym_len(self):
+        return self.n
+
+    def append(self, seg):
+        s = seg._f["__s"]
+        old = self.idx.sel
+        pos = zi(self.n)
+        self.idx = ZArr(lambda j, old=old, pos=pos, s=zi(s): z3.If(zi(j) == pos, s, old(j)), self.n + 1)
+        self.n = self.n + 1
+
+
+def _setup_all(interp):
+    def seglen(lst):
+        return len(lst) if isinstance(lst, list) else lst.n
+
+    def read_segment_metadata(interp_, f, args, kwargs):
+        """contract of TdmsReader._read_segment_metadata (harnesses read_lead_in, read_segment_objects): at the
+        lead-in of segment k it returns segment k (positions as functions of the lead-in fields) and its
+        properties and leaves the cursor after the metadata; at the end of the stream it raises EOFError; a
+        malformed segment raises the injected error"""
+        st = sym.get_state()
+        rd, file, segment_position, index_cache, previous_segment, is_index_file = args
+        g = st.ghost["walk"]
+        k = g["k"]
+        walk_facts(st, k)
+        st.check("call/segment-position-is-the-data-file-position-of-segment-k", segment_position == _lift(POS(zi(k))),
+                 kind="call-pre")
+        st.check("call/stream-cursor-at-lead-in-of-segment-k",
+                 file.pos == (_lift(QPOS(zi(k))) if g["index"] else _lift(POS(zi(k)))), kind="call-pre")
+        st.check("call/reads-the-stream-chosen", file is g["stream"] and is_index_file == g["index"], kind="call-pre")
+        if interp_.truth(k == 0):
+            st.check("call/no-previous-segment-at-the-first", previous_segment is None, kind="call-pre")
+        else:
+            st.check("call/previous-segment-passed", previous_segment is not None and
+                     interp_.truth(previous_segment._f["__s"] == k - 1), kind="call-pre")
+        st.check("call/index-cache-as-requested", (index_cache is not None) == g["want_index"], kind="call-pre")
+        g["calls"] = g["calls"] + 1
+        if interp_.truth(k == g["K"]):
+            if g["fail"] is not None:
+                raise ProgExc(g["fail"], "metadata")
+            raise ProgExc(EOFError, "end")
+        st.assume(k < g["K"])
+        kz = zi(k)
+        seg = Obj(interp_.get("tdms_segment.TdmsSegment"))
+        seg._f.update(position=segment_position, data_position=segment_position + 28 + _lift(RAW(kz)),
+                      next_segment_pos=segment_position + 28 + _lift(NEXT(kz)), ordered_objects=[], num_chunks=0,
+                      final_chunk_lengths_override=None, object_index=None, toc_mask=14, __s=k)
+        file.pos = file.pos + 28 + _lift(RAW(kz))          # lead-in and metadata consumed
+        return seg, ("props", k)
+
+    def update_object_metadata(interp_, f, args, kwargs):
+        """contract of _update_object_metadata for the channel P (harness update_object_metadata): the channel's
+        num_values grows by the segment's value count"""
+        st = sym.get_state()
+        g = st.ghost["walk"]
+        st.check("call/object-metadata-updated-with-the-segment-just-read", args[1]._f["__s"] == g["k"], kind="call-pre")
+        st.check("call/object-metadata-updated-once-per-segment-in-order", g["meta"] == g["k"], kind="call-pre")
+        g["meta"] = g["meta"] + 1
+        g["numvals"] = g["numvals"] + _lift(VALS(zi(g["k"])))
+
+    def update_object_properties(interp_, f, args, kwargs):
+        st = sym.get_state()
+        g = st.ghost["walk"]
+        p = args[1]
+        st.check("call/properties-of-the-segment-just-read", isinstance(p, tuple) and p[0] == "props" and
+                 interp_.truth(p[1] == g["k"]), kind="call-pre")
+        st.check("call/properties-updated-once-per-segment-in-order", g["props"] == g["k"], kind="call-pre")
+        g["props"] = g["props"] + 1
+        g["k"] = g["k"] + 1                         # the segment is complete: ghost index advances
+
+    interp.contracts_at_calls["nptdms.reader:TdmsReader._read_segment_metadata"] = read_segment_metadata
+    interp.contracts_at_calls["nptdms.reader:TdmsReader._update_object_metadata"] = update_object_metadata
+    interp.contracts_at_calls["nptdms.reader:TdmsReader._update_object_properties"] = update_object_properties
+
+    def inv(env, k, st):
+        g = st.ghost["walk"]
+        rd = env.vars["self"]
+        segs = rd._segments
+        file = env.vars["file"]
+        kz = zi(k)
+        walk_facts(st, k)
+        out = [("ghost-index-is-the-iteration-count", g["k"] == k),
+               ("never-past-the-end-of-the-stream", k <= g["K"]),
+               ("one-segment-recorded-per-iteration", seglen(segs) == k),
+               ("segment_position-is-the-position-of-the-next-segment", env.vars["segment_position"] == _lift(POS(kz))),
+               ("stream-cursor-at-the-next-lead-in",
+                file.pos == (_lift(QPOS(kz)) if g["index"] else _lift(POS(kz)))),
+               ("object-metadata-and-properties-updated-k-times", And(g["meta"] == k, g["props"] == k)),
+               ("running-value-count-of-the-channel", g["numvals"] == _lift(CUMV(kz - 1))),
+               ("stream-still-open", not file.closed)]
+        ps = env.vars["previous_segment"]
+        if ps is None:
+            out.append(("previous_segment-is-None-only-before-the-first", k == 0))
+        else:
+            out.append(("previous_segment-is-the-last-recorded-segment", And(k > 0, ps._f["__s"] == k - 1)))
+        if isinstance(segs, GrowList):
+            j = z3.Int(sym.fresh_name("j"))
+            out.append(("segments-recorded-in-stream-order",
+                        SymBool(z3.ForAll([j], z3.Implies(z3.And(0 <= j, j < kz), segs.idx.sel(j) == j)))))
+        return out
+
+    def havoc_reader(st, env):
+        rd = env.vars["self"]
+        g = st.ghost["walk"]
+        n = st.fresh_int("nsegs")
+        rd._f["_segments"] = GrowList(n, ZArr.fresh(n, "int64", "segidx"))
+        for key in ("k", "meta", "props", "numvals", "calls"):
+            g[key] = st.fresh_int(key)
+        env.vars["file"].pos = st.fresh_int("cursor")
+        return rd
+
+    def havoc_prev(st, env):
+        # previous_segment: None or the segment with a fresh ghost index (the invariant pins it down)
+        if st.choose(2, "prev") == 0:
+            return None
+        seg = Obj(interp.get("tdms_segment.TdmsSegment"))
+        s = st.fresh_int("prev")
+        sz = zi(s)
+        walk_facts(st, s)
+        seg._f.update(position=_lift(POS(sz)), data_position=_lift(POS(sz)) + 28 + _lift(RAW(sz)),
+                      next_segment_pos=_lift(POS(sz)) + 28 + _lift(NEXT(sz)), ordered_objects=[], num_chunks=0,
+                      final_chunk_lengths_override=None, object_index=None, toc_mask=14, __s=s)
+        return seg
+    interp.loop_specs[("nptdms.reader:TdmsReader.read_metadata", 0)] = LoopSpec(
+        inv, havoc={"self": havoc_reader, "previous_segment": havoc_prev, "segment_position": "int",
+                    "__locals__": ("start_position", "segment", "properties")}, name="segments")
+
+
+VARIANTS_ALL = [("%s,%s,%s,%s" % (mode, own, fail.__name__ if fail else "ok", "index" if wi else "noindex"),
+                 (mode, own, fail, wi))
+                for mode in ("data", "index", "both") for own in ("owned", "borrowed")
+                for fail in (None, ValueError) for wi in (False, True) if not (wi and fail)]
+
+
+@harness("read_metadata_all_segments", "reader.TdmsReader.read_metadata", ["C09", "C20", "C01", "C04"],
+         variants=VARIANTS_ALL, setup=_setup_all,
+         note="the metadata walk for ANY number of segments (while-loop invariant; _segments as a list of symbolic "
+              "length): segment k is read at its data-file position POS(k) with the cursor at POS(k) (data) or "
+              "IDXPOS(k) (index stream), recorded in order, metadata/properties updated once per segment, the "
+              "channel's value count is the running sum; errors propagate; the index stream is closed iff owned")
+def _read_metadata_all(vc):
+    mode, own, fail, want_index = vc.variant
+    st = vc.st
+    data = SFile("data") if mode in ("data", "both") else None
+    index = SFile("index") if mode in ("index", "both") else None
+    rd = mk_reader(vc, vc.int("S", lo=0) if data is not None else None)
+    rd._file = data
+    rd._index_file = index
+    if own == "owned":
+        rd._file_path = "x.tdms" if data is not None else None
+        rd._index_file_path = "x.tdms_index" if index is not None else None
+        for f in (data, index):
+            if f is not None:
+                f.owned = True
+    stream = index if index is not None else data
+    stream.pos = 0
+    K = vc.int("K", lo=0)
+    st.add_fact(z3.And(POS(0) == 0, QPOS(0) == 0, CUMV(-1) == 0))
+    st.ghost["walk"] = dict(k=0, K=K, index=index is not None, stream=stream, fail=fail, want_index=want_index,
+                            meta=0, props=0, numvals=0, calls=0)
+    vc.cover("a-stream-of-three-segments-is-admitted", K == 3)
+    out = vc.call_method(rd, "read_metadata", want_index)
+    g = st.ghost["walk"]
+    if fail is not None:
+        vc.ensure("metadata-error-propagates", out.raised(fail))
+    else:
+        vc.ensure("no-exception", out.kind == "ret")
+        segs = rd._segments
+        n = len(segs) if isinstance(segs, list) else segs.n
+        vc.ensure("all-segments-recorded", n == K)
+        if isinstance(segs, GrowList):
+            j = vc.int("j")
+            vc.ensure("segments-recorded-in-stream-order", Implies(And(0 <= j, j < K), _lift(segs.idx.sel(zi(j))) == j))
+        vc.ensure("object-metadata-and-properties-updated-once-per-segment", And(g["meta"] == K, g["props"] == K))
+        vc.ensure("channel-length-is-the-sum-of-the-segments'-value-counts", g["numvals"] == _lift(CUMV(zi(K) - 1)))
+    if index is not None:
+        vc.ensure("c20/owned-index-stream-closed-after-metadata(also-on-error)", index.closed == (own == "owned"),
+                  kind="resource")
+    if data is not None:
+        vc.ensure("c20/data-file-left-open-for-data-reads", not data.closed, kind="resource")
